@@ -150,6 +150,34 @@ Qed.
 Print Assumptions C09_remove_spec.
 
 (* ---------------------------------------------------------------------------------------------- *)
+(* Download is the mirror image: the local file system becomes graft lfs A t (exactly, entry order
+   included) where t is the remote subtree at the source and A the local destination
+   (lcwd / dst [/ source.name]); kinds_ok = no file/directory conflict with what is already there. *)
+Theorem C09_download_spec : forall cwd rfs lcwd lfs src dst wi t fuel,
+  let dst' := final_destination (pname src) dst wi in
+  let A := resolve lcwd dst' in
+  (tree_size t <= fuel)%nat ->
+  lookup rfs (resolve cwd src) = Some t ->
+  wf_tree t ->
+  no_file_on lfs (removelast A) ->
+  kinds_ok lfs A t ->
+  (is_dir t = false -> p_parts dst' <> []) ->
+  download fuel cwd rfs lcwd lfs src dst wi = Ok (graft lfs A t) /\
+  (no_file_on lfs A -> forall q, look (graft lfs A t) q = placed lfs A t q).
+Proof.
+  intros cwd rfs lcwd lfs src dst wi t fuel dst' A Hf L W NF K HP. split.
+  - apply download_spec; assumption.
+  - intros NFA q. apply graft_placed; [assumption|]. split; assumption.
+Qed.
+Print Assumptions C09_download_spec.
+
+(* the fuel the harness interface gives (the node count of the whole file system) is enough for every
+   subtree, so none of the walks above ends in OutOfFuel *)
+Theorem C09_fuel_enough : forall fs p t, lookup fs p = Some t -> (tree_size t <= tree_size fs)%nat.
+Proof. exact fuel_enough. Qed.
+Print Assumptions C09_fuel_enough.
+
+(* ---------------------------------------------------------------------------------------------- *)
 (* non-vacuity: the hypotheses are satisfiable on a non-trivial state (a fresh destination x/y under
    cwd /w, a source with an empty directory, an empty file and equal names on two levels) *)
 Example C09_hypotheses_satisfiable :
